@@ -2,7 +2,7 @@ SPEC = {
     'id': 'C05',
     'properties_file': 'theories/Properties/C05.v',
     'properties_module': 'Properties.C05',
-    'gen_files': [],
+    'gen_files': ['theories/GenFacts/DistributionFacts.v'],
     'streams': [{
         'name': 'announcement', 'pkg': './pkg/secretstore', 'test': 'TestVerifC05',
         'files': [('pkg/secretstore', 'harness/secretstore/zz_verif_common_test.go'),
@@ -13,7 +13,7 @@ SPEC = {
         'name': 'distribution', 'pkg': '.', 'test': 'TestVerifC05Dist',
         'files': [('.', 'harness/root/zz_verif_meta_common_test.go'),
                   ('.', 'harness/root/zz_verif_c05dist_test.go')],
-        'model_module': 'Model.C05_ChainKeyAnn', 'imports': ['From Wesh Require Import Model.Store.'],
+        'model_module': 'Model.C05_Receive', 'imports': ['From Wesh Require Import Model.Store.'],
         'shard': 600, 'timeout': 900,
     }],
     'rule': 'per round: one account with two devices and two other accounts; the account group, two contact groups (which share '
@@ -24,10 +24,11 @@ SPEC = {
             '(the first with 1-2 devices) in one multi-member group with REAL GroupContexts (OpenGroup + ActivateGroupContext, i.e. the event loop of '
             'group_context.go), activations and one-way deliveries of metadata heads interleaved at random, then everything delivered to everybody '
             'until no log grows; the converged metadata log must be quiescent for the rule system of the model and every device must hold the chain '
-            'key of every other device (IsChainKeyKnownForDevice on the real secret stores)',
+            'key of every other device (IsChainKeyKnownForDevice on the real secret stores); every third scenario starts with a scripted history: a late second device of the first account is activated on a log PREFIX that holds the joining account\'s chain key but not yet its announcement (the harness waits for the store\'s asynchronous announcements before each scripted activation); deliveries of prefixes (an entry and its ancestors) besides heads; per device a second case: the log it held when it was activated, the entries that arrived afterwards and the keys it holds, replayed by the receiving-side model (Model/C05_Receive.v)',
     'trusted_base': [
         'Coq 8.16.1 kernel; vm_compute for evaluating the model on cases',
         'no axioms',
+        'translator gen/distribution.go (statements of metadataStoreListSecrets, fillMessageKeysHolderUsingPreviousData, the chain-key case of handleGroupMetadataEvent and the rejections of getAndFilterGroupDeviceChainKeyAddedPayload, rendered as strings)',
         'harness/root/zz_verif_c05dist_test.go, harness/root/zz_verif_meta_common_test.go (replicas over one in-memory IPFS node, silent pubsub)',
         'harness/secretstore/zz_verif_c05_test.go (identifies keys and nonces by first appearance; chain values by re-deriving the HKDF chain)',
         'modelled, not verified: nacl box = X25519 + XSalsa20-Poly1305 (opens iff same agreement and nonce), Ed25519->X25519 conversion '
